@@ -46,6 +46,7 @@ type c09In struct {
 	N       int    `json:"n,omitempty"`     // conc: number of goroutines
 	Procs   int    `json:"procs,omitempty"` // conc: GOMAXPROCS is not changed; kept for the record
 	ConcSeed int64 `json:"conc_seed,omitempty"`
+	Salt    int      `json:"salt,omitempty"`  // digits appended to the weight of the salted Accept spellings (jsonS, jsonSU): makes the header value unique to this case
 	Reqs    []c09In  `json:"reqs,omitempty"`  // multi: the requests (their own Ops are ignored)
 	Sched   [][2]int `json:"sched,omitempty"` // multi: (request index, op) in execution order
 }
@@ -283,6 +284,10 @@ func c09Request(in c09In, rid string) *http.Request {
 		req.Header.Set("Accept", "*/*;q=0.5, image/gif")
 	case "star":
 		req.Header.Set("Accept", "*/*")
+	case "jsonS": // two spellings that differ in letter case only; a weight unique to the case
+		req.Header.Set("Accept", fmt.Sprintf("application/json;q=0.7%06d", in.Salt))
+	case "jsonSU":
+		req.Header.Set("Accept", fmt.Sprintf("Application/JSON;q=0.7%06d", in.Salt))
 	}
 	switch in.Key {
 	case "good":
@@ -412,6 +417,7 @@ func (c09) Run(inAny any) any {
 		c09Cnt = c09Counters{}
 		c09Leaks = nil
 		c09BoundSeen = map[*http.Request]bool{}
+		c09CtDone = map[string]bool{}
 		req := c09Request(in, "r1")
 		for _, o := range in.Ops {
 			var st c09Step
@@ -459,6 +465,9 @@ func c09Op(a *c09API, in c09In, rid string, req *http.Request, o int) (c09Step, 
 	case 1:
 		mt, _, r, err := ctx.ContentType(req)
 		st.Res = "RCt " + c09OptNat(err == nil, c09MT(mt))
+		if err == nil {
+			c09CtDone[rid] = true
+		}
 		keep(r)
 	case 2, 3:
 		offers := a.routeOffers
@@ -539,6 +548,11 @@ func c09Op(a *c09API, in c09In, rid string, req *http.Request, o int) (c09Step, 
 				req.URL.RawQuery = "q=tampered"
 			}
 		}
+		// likewise the Content-Type header: once its parse is cached on the request, later askers get the cached parse
+		// whatever a middleware did to the header meanwhile
+		if c09CtDone[rid] && req.Header.Get("Content-Type") != "" {
+			req.Header.Del("Content-Type")
+		}
 		st.Res, st.Same = "RTampered", true
 	case 7:
 		// a fresh copy of this request is served by the whole handler; nothing is threaded back
@@ -561,14 +575,18 @@ func c09Bound(req *http.Request) bool {
 
 var c09BoundSeen = map[*http.Request]bool{}
 
+// c09CtDone: the request chain of this id has had its content type parsed successfully through Context.ContentType
+var c09CtDone = map[string]bool{}
+
 func c09RunMulti(in c09In, obs *c09Obs) {
 	a := c09Get(in.Anon, in.Authz != "none")
 	c09Leaks = nil
 	c09BoundSeen = map[*http.Request]bool{}
+	c09CtDone = map[string]bool{}
 	reqs := make([]*http.Request, len(in.Reqs))
 	obs.Multi = make([][]c09Step, len(in.Reqs))
 	for i, ri := range in.Reqs {
-		ri.Anon, ri.Authz = in.Anon, in.Authz
+		ri.Anon, ri.Authz, ri.Salt = in.Anon, in.Authz, in.Salt
 		in.Reqs[i] = ri
 		rid := fmt.Sprintf("m%d", i)
 		reqs[i] = c09Request(ri, rid)
@@ -586,6 +604,7 @@ func c09RunMulti(in c09In, obs *c09Obs) {
 		fresh := c09Build(in.Anon, in.Authz != "none")
 		rid := fmt.Sprintf("m%d", i)
 		req := c09Request(ri, rid)
+		c09CtDone = map[string]bool{}
 		var solo []c09Step
 		for _, e := range in.Sched {
 			if e[0] == i {
@@ -597,6 +616,30 @@ func c09RunMulti(in c09In, obs *c09Obs) {
 		if fmt.Sprint(solo) != fmt.Sprint(obs.Multi[i]) {
 			obs.SoloOK = false
 			obs.Leaks = append(obs.Leaks, fmt.Sprintf("request %s interleaved: %v; alone on a fresh handler: %v", rid, obs.Multi[i], solo))
+		}
+	}
+	// history independence: the same requests (their salted Accept values spelled with another salt, which changes no
+	// outcome) served one after the other in the REVERSE order on another fresh handler observe the same; state that
+	// outlives a request anywhere in the process and is keyed more coarsely than the request shows up here even when the
+	// solo runs above, made after it was filled, agree.
+	world2 := c09Build(in.Anon, in.Authz != "none")
+	for i := len(in.Reqs) - 1; i >= 0; i-- {
+		ri := in.Reqs[i]
+		ri.Salt = in.Salt + 500000
+		rid := fmt.Sprintf("m%d", i)
+		req := c09Request(ri, rid)
+		c09CtDone = map[string]bool{}
+		var again []c09Step
+		for _, e := range in.Sched {
+			if e[0] == i {
+				var st c09Step
+				st, req = c09Op(world2, ri, rid, req, e[1])
+				again = append(again, st)
+			}
+		}
+		if fmt.Sprint(again) != fmt.Sprint(obs.Multi[i]) {
+			obs.SoloOK = false
+			obs.Leaks = append(obs.Leaks, fmt.Sprintf("request %s interleaved after the others: %v; served before them: %v", rid, obs.Multi[i], again))
 		}
 	}
 	obs.OwnOK = len(c09Leaks) == 0
@@ -749,11 +792,14 @@ func (c09) Gen(r *rand.Rand, tier string, i int) any {
 		return c09In{Kind: "conc", Anon: r.Intn(2) == 0, Authz: []string{"none", "accept"}[r.Intn(2)], N: n, ConcSeed: r.Int63()}
 	}
 	if i%8 == 7 {
-		m := c09In{Kind: "multi", Anon: r.Intn(2) == 0, Authz: c09Pick(r, "authz")}
+		m := c09In{Kind: "multi", Anon: r.Intn(2) == 0, Authz: c09Pick(r, "authz"), Salt: r.Intn(500000)}
 		nreq := 2 + r.Intn(2)
 		for j := 0; j < nreq; j++ {
 			q := c09In{Kind: "seq", Target: []string{"items", "items", "items", "open", "find"}[r.Intn(5)], CT: c09Pick(r, "ct"), Body: c09Pick(r, "body"),
 				Accept: c09Pick(r, "accept"), Key: c09Pick(r, "key"), Esc: r.Intn(3) == 0}
+			if r.Intn(2) == 0 { // spellings of one Accept value that differ in letter case only
+				q.Accept = []string{"jsonS", "jsonSU"}[r.Intn(2)]
+			}
 			m.Reqs = append(m.Reqs, q)
 			m.Sched = append(m.Sched, [2]int{j, 0})
 		}
